@@ -96,7 +96,27 @@ func init() {
 				}
 				sp.Mode = "emacs"
 			}
-			c := Case{Specs: []Spec{sp, sp}, Keys: hexChunks(keys), Cut: r.Int63(), Class: sp.Mode + "/" + how,
+			extra := ""
+			if how != "with-cursor-report" && r.Intn(6) == 0 {
+				// completion as-you-type (autocomplete on) with an application completer: the list is computed at each
+				// redisplay, TAB uses it — whether the keys came one by one or in one read
+				sp.Inputrc += "set autocomplete on\n"
+				sp.Completer = stdCompleter
+				// a word that is the beginning of a candidate (the list narrows with every character), TAB, some more
+				cand := []string{"alpha", "alpine", "beta", "x1", "alpha"}[r.Intn(5)]
+				keys = nil
+				for _, ch := range cand[:1+r.Intn(len(cand))] {
+					keys = append(keys, string(ch))
+				}
+				keys = append(keys, "\t")
+				ac := []string{"a", "l", "x", "\t", " ", "\x7f"}
+				for k := r.Intn(4); k > 0; k-- {
+					keys = append(keys, ac[r.Intn(len(ac))])
+				}
+				keys = append(keys, "\r")
+				extra = "/autocomplete"
+			}
+			c := Case{Specs: []Spec{sp, sp}, Keys: hexChunks(keys), Cut: r.Int63(), Class: sp.Mode + "/" + how + extra,
 				Meta: map[string]string{"how": how}}
 			build(&c)
 			return c
